@@ -146,6 +146,9 @@ func (w *World) takeFork() {
 	if w.armedC08 {
 		w.importAndCheckCounters()
 	}
+	if w.armedShadow && w.shadow == nil {
+		w.takeShadow()
+	}
 	if !w.armedC15 || w.Fork != nil {
 		return
 	}
@@ -430,5 +433,92 @@ func (w *World) importAndCheckCounters() {
 				w.Violate("C08", "C08/"+v.kind+"/more-records-than-limit/after-import", "%s %d holds %d records with limit %d after import", v.kind, id, len(keys), o.Limit)
 			}
 		}
+	}
+}
+
+// ---------------------------------------------------------------------------------------------
+// shadow: a chain initialised from an export of the reference that then executes the same blocks.
+// Under C07/C08/C09 the property's own read-back oracles are applied to it after every block
+// (classes get the suffix /after-import): what was accepted stays readable, counters match, owners
+// and metadata stay, also across a genesis export/import - the way chains are upgraded. Whether the
+// import works at all and is lossless as a whole is C15's subject: failures to import, and
+// transaction results that differ, are not judged here.
+
+type shadowChain struct {
+	B    *Node
+	At   int64
+	dead bool
+}
+
+func (w *World) takeShadow() {
+	var raw []byte
+	var height int64
+	if p, _ := safely(func() {
+		exp := &Node{Idx: 101, Cfg: DefaultRefCfg(), DB: w.Ref.DB, AppOpts: appOptsOf(&w.T.Knobs)}
+		exp.Open()
+		e, err := exp.App.ExportAppStateAndValidators(false, nil, nil)
+		if err != nil {
+			panic(err)
+		}
+		raw, height = e.AppState, e.Height
+	}); p != "" {
+		return
+	}
+	b, p := w.initFrom(raw, height)
+	if p != "" {
+		return
+	}
+	w.shadow = &shadowChain{B: b, At: w.Ref.Height}
+	w.Probe("shadow.chain-imported")
+	// registrations the models do not know (injected through genesis) must survive as well
+	actx := w.CCtx()
+	bctx := b.App.BaseApp.NewContext(false, MakeHeader(height, w.Now, nil))
+	for _, c := range w.Ref.App.WrkchainKeeper.GetAllWrkChains(actx) {
+		o, found := b.App.WrkchainKeeper.GetWrkChain(bctx, c.WrkchainId)
+		if !found || o.Owner != c.Owner || o.Moniker != c.Moniker || o.Name != c.Name || o.Genesis != c.Genesis || o.Type != c.Type || o.RegTime != c.RegTime {
+			w.Violate("C09", "C09/wrk/registration-lost-or-changed-by-import", "WRKChain %d (%q, owner %s) of the exporting chain is %v on the chain initialised from its export (found=%v)", c.WrkchainId, c.Moniker, c.Owner, o, found)
+			break
+		}
+	}
+	for _, c := range w.Ref.App.BeaconKeeper.GetAllBeacons(actx) {
+		o, found := b.App.BeaconKeeper.GetBeacon(bctx, c.BeaconId)
+		if !found || o.Owner != c.Owner || o.Moniker != c.Moniker || o.Name != c.Name || o.RegTime != c.RegTime {
+			w.Violate("C09", "C09/bcn/registration-lost-or-changed-by-import", "BEACON %d (%q, owner %s) of the exporting chain is %v on the chain initialised from its export (found=%v)", c.BeaconId, c.Moniker, c.Owner, o, found)
+			break
+		}
+	}
+}
+
+func (w *World) followShadow(rec *BlockRec) {
+	sh := w.shadow
+	if sh == nil || sh.dead || rec.Height <= sh.At {
+		return
+	}
+	b := sh.B
+	hdr := MakeHeader(rec.Height, rec.Time, nil)
+	if p, _ := safely(func() {
+		b.App.BeginBlock(abci.RequestBeginBlock{Header: hdr, LastCommitInfo: LastCommit()})
+		for _, bz := range rec.Txs {
+			b.App.DeliverTx(abci.RequestDeliverTx{Tx: bz})
+		}
+		b.App.EndBlock(abci.RequestEndBlock{Height: rec.Height})
+		b.App.Commit()
+	}); p != "" {
+		sh.dead = true
+		return
+	}
+	w.Probe("shadow.block-followed")
+	wb := &World{T: w.T, Actors: w.Actors, Ref: b, Hdr: hdr, Now: w.Now, M: w.M, St: w.St, PropOverride: w.PropOverride, KnownClasses: w.KnownClasses, BlockIdx: w.BlockIdx, Log: w.Log}
+	for _, m := range w.Mons {
+		switch m.(type) {
+		case *monC07, *monC08, *monC09:
+			m.AfterBlock(wb)
+		}
+	}
+	for _, v := range wb.Viol {
+		w.Violate(v.Property, v.Class+"/after-import", "on the chain initialised from the export of height %d: %s", sh.At, v.Detail)
+	}
+	if len(wb.Viol) > 0 {
+		sh.dead = true
 	}
 }
